@@ -8,6 +8,7 @@ import Hive.Model.KVDrive
 import Hive.Gen.C04_Calls
 import Hive.Gen.C04_Skel
 import Hive.Gen.C04_Wrap
+import Hive.Proofs.KVMapSrc
 /-!
 # C04 — KVStore views and wrappers obey one ordered-map contract
 
@@ -950,6 +951,112 @@ example : runBody ⟨[[1], [2]], [], [], true, false⟩ .flush "s" [.debug 16 tr
   decide
 
 end WrapperSource
+
+/-! ## the model of views and batches is derived from the source (`Hive/Gen/C04_Map.lean`, `Hive/Model/KVMapSrc.lean`)
+
+`harness/c04/mgen` translates the body of every method of `kvstore/mapdb/mapdb.go` on every run of the check; the theorems
+below take the *generated* terms as they are and show that interpreting them (`mexec`, sequentially, with the methods of
+`syncedKVMap` as primitives) gives exactly the functions the hand-written model `Hive/Model/KV.lean` is made of — for every
+store content, open or closed, every realm, key, prefix and value, both directions, every consumer stop.  So the closed
+check of every method (and the absence of one in `Realm`, `Close`, batch `Set` / `Delete` / `Cancel`), the full key
+`ConcatBytes(s.realm, key)`, `Clear` = `deletePrefix(s.realm)`, "not found" exactly when the map has no entry, the batch
+bookkeeping (`Set` removes the key from the delete operations and vice versa, `Cancel` empties both maps, `Commit` applies
+every set operation, then every delete operation, under the realm of the view, and keeps the maps) are obligations against
+the working tree: a changed body breaks them. -/
+
+section MapdbSource
+open MapSrc Hive.Gen.C04Map
+
+macro "map_derive" : tactic =>
+  `(tactic| (simp [mexec, leaf, mapPrim, evalE, done, selfTbl, env0, lookupS, dbGet, dbHas, dbSet, dbDelete, dbDeletePrefix, dbClear, dbCheck,
+      dbIterate, dbIterateKeys,
+      src_mapdb_mapDB_Get, src_mapdb_mapDB_Set, src_mapdb_mapDB_set, src_mapdb_mapDB_Has, src_mapdb_mapDB_Delete, src_mapdb_mapDB_delete,
+      src_mapdb_mapDB_DeletePrefix, src_mapdb_mapDB_Clear, src_mapdb_mapDB_Flush, src_mapdb_mapDB_Close, src_mapdb_mapDB_Iterate,
+      src_mapdb_mapDB_IterateKeys, src_mapdb_mapDB_Realm, src_mapdb_mapDB_WithRealm, src_mapdb_mapDB_WithExtendedRealm, src_mapdb_mapDB_Batched,
+      src_mapdb_batchedMutations_Set, src_mapdb_batchedMutations_Delete, src_mapdb_batchedMutations_Cancel]
+             try (split <;> simp_all)))
+
+/-- **The `*mapDB` methods, derived from their source**: the generated body of each of `Get`, `Has`, `Set` (with `set`),
+`Delete` (with `delete`), `DeletePrefix`, `Clear`, `Flush`, `Close`, `Realm`, `Iterate`, `IterateKeys`, `WithRealm`,
+`WithExtendedRealm`, `Batched`, run on a view with realm `R`, is the model's `dbGet R k`, `dbHas`, `dbSet`, `dbDelete`,
+`dbDeletePrefix`, `dbClear R`, `dbCheck`, "closed := true", `R`, `dbIterate R p d stop`, `dbIterateKeys`, "a view with realm `r` /
+`R ‖ r` unless closed", "a batch unless closed" — answer and resulting store. -/
+theorem C04_mapdb_model_is_the_source (db : Store) (sets : AList) (dels : List Bytes) (R k v : Bytes) (d : Dir) (n : Nat) :
+    mexec selfTbl (env0 R [k] d n) src_mapdb_mapDB_Get ⟨db, sets, dels, none⟩ = some ⟨⟨db, sets, dels, none⟩, dbGet R k db, none, false⟩ ∧
+    mexec selfTbl (env0 R [k] d n) src_mapdb_mapDB_Has ⟨db, sets, dels, none⟩ = some ⟨⟨db, sets, dels, none⟩, dbHas R k db, none, false⟩ ∧
+    mexec selfTbl (env0 R [k, v] d n) src_mapdb_mapDB_Set ⟨db, sets, dels, none⟩ =
+      some ⟨⟨(dbSet R k v db).1, sets, dels, none⟩, (dbSet R k v db).2, none, false⟩ ∧
+    mexec selfTbl (env0 R [k] d n) src_mapdb_mapDB_Delete ⟨db, sets, dels, none⟩ =
+      some ⟨⟨(dbDelete R k db).1, sets, dels, none⟩, (dbDelete R k db).2, none, false⟩ ∧
+    mexec selfTbl (env0 R [k] d n) src_mapdb_mapDB_DeletePrefix ⟨db, sets, dels, none⟩ =
+      some ⟨⟨(dbDeletePrefix R k db).1, sets, dels, none⟩, (dbDeletePrefix R k db).2, none, false⟩ ∧
+    mexec selfTbl (env0 R [] d n) src_mapdb_mapDB_Clear ⟨db, sets, dels, none⟩ =
+      some ⟨⟨(dbClear R db).1, sets, dels, none⟩, (dbClear R db).2, none, false⟩ ∧
+    mexec selfTbl (env0 R [] d n) src_mapdb_mapDB_Flush ⟨db, sets, dels, none⟩ = some ⟨⟨db, sets, dels, none⟩, dbCheck db, none, false⟩ ∧
+    mexec selfTbl (env0 R [] d n) src_mapdb_mapDB_Close ⟨db, sets, dels, none⟩ =
+      some ⟨⟨{ db with closed := true }, sets, dels, none⟩, .ok, none, false⟩ ∧
+    mexec selfTbl (env0 R [] d n) src_mapdb_mapDB_Realm ⟨db, sets, dels, none⟩ = some ⟨⟨db, sets, dels, none⟩, .bytes R, none, false⟩ ∧
+    mexec selfTbl (env0 R [k] d n) src_mapdb_mapDB_Iterate ⟨db, sets, dels, none⟩ =
+      some ⟨⟨db, sets, dels, if db.closed then none else some (dbIterate R k d n db)⟩, dbIterate R k d n db, none, false⟩ ∧
+    mexec selfTbl (env0 R [k] d n) src_mapdb_mapDB_IterateKeys ⟨db, sets, dels, none⟩ =
+      some ⟨⟨db, sets, dels, if db.closed then none else some (dbIterateKeys R k d n db)⟩, dbIterateKeys R k d n db, none, false⟩ ∧
+    mexec selfTbl (env0 R [k] d n) src_mapdb_mapDB_WithRealm ⟨db, sets, dels, none⟩ =
+      some ⟨⟨db, sets, dels, none⟩, dbCheck db, if db.closed then none else some k, false⟩ ∧
+    mexec selfTbl (env0 R [k] d n) src_mapdb_mapDB_WithExtendedRealm ⟨db, sets, dels, none⟩ =
+      some ⟨⟨db, sets, dels, none⟩, dbCheck db, if db.closed then none else some (R ++ k), false⟩ ∧
+    mexec selfTbl (env0 R [] d n) src_mapdb_mapDB_Batched ⟨db, sets, dels, none⟩ =
+      some ⟨⟨db, sets, dels, none⟩, dbCheck db, none, !db.closed⟩ := by
+  refine ⟨?_, ?_, ?_, ?_, ?_, ?_, ?_, ?_, ?_, ?_, ?_, ?_, ?_, ?_⟩
+  · map_derive
+    cases aget (R ++ k) db.m <;> rfl
+  · map_derive
+  · map_derive
+  · map_derive
+  · map_derive
+  · map_derive
+  · map_derive
+  · map_derive
+    intro h; cases db; simp_all
+  · map_derive
+  · map_derive
+  · map_derive
+  · map_derive
+  · map_derive
+  · map_derive
+
+/-- **The batch of mapdb, derived from its source**: the generated bodies of `batchedMutations.Set` / `Delete` / `Cancel` do to
+the two operation maps what `step` does for `bset` / `bdel` / `cancel` (no closed check, the store untouched), and the
+generated body of `Commit` — closed check, then the loop over the set operations calling the generated `set`, then the
+loop over the delete operations calling the generated `delete` — is the model's `dbCommit R sets dels`, with both maps
+kept. -/
+theorem C04_mapdb_batch_model_is_the_source (db : Store) (sets : AList) (dels : List Bytes) (R k v : Bytes) (d : Dir) (n : Nat) :
+    mexec selfTbl (env0 R [k, v] d n) src_mapdb_batchedMutations_Set ⟨db, sets, dels, none⟩ =
+      some ⟨⟨db, aset k v sets, dels.filter (· != k), none⟩, .ok, none, false⟩ ∧
+    mexec selfTbl (env0 R [k] d n) src_mapdb_batchedMutations_Delete ⟨db, sets, dels, none⟩ =
+      some ⟨⟨db, adel k sets, k :: dels.filter (· != k), none⟩, .ok, none, false⟩ ∧
+    mexec selfTbl (env0 R [] d n) src_mapdb_batchedMutations_Cancel ⟨db, sets, dels, none⟩ =
+      some ⟨⟨db, [], [], none⟩, .ok, none, false⟩ ∧
+    mexec selfTbl (env0 R [] d n) src_mapdb_batchedMutations_Commit ⟨db, sets, dels, none⟩ =
+      some ⟨⟨(dbCommit R sets dels db).1, sets, dels, none⟩, (dbCommit R sets dels db).2, none, false⟩ := by
+  refine ⟨?_, ?_, ?_, ?_⟩
+  · map_derive
+  · map_derive
+  · map_derive
+  · simp only [src_mapdb_batchedMutations_Commit, mexec, dbCommit]
+    cases hc : db.closed with
+    | true => simp [done]
+    | false => simp [selfTbl, applyAll_set, applyAll_delete, env0, leaf, done, hc]
+
+/-- `NewMapDB` (a function) is pinned as normalised source text: a fresh map, a fresh flag, no realm. -/
+theorem C04_mapdb_constructor_text :
+    text_mapdb_NewMapDB = "{ return &mapDB{ m: &syncedKVMap{m: make(map[string][]byte)}, closed: new(atomic.Bool), } }" := rfl
+
+/-- The derivation composes with a concrete store: `Set` through a view with realm `[9]` on an open store. -/
+example : mexec selfTbl (env0 [9] [[1], [2]] .fwd 0) src_mapdb_mapDB_Set ⟨⟨[], false⟩, [], [], none⟩ =
+    some ⟨⟨⟨[([9, 1], [2])], false⟩, [], [], none⟩, .ok, none, false⟩ := by
+  decide
+
+end MapdbSource
 
 /-! ## regenerated facts about the source (`Hive/Gen/C04_Calls.lean`, `Hive/Gen/C04_Skel.lean`)
 
